@@ -39,7 +39,7 @@ REFUTE = {"MatchStmtImpl_refute1": "KF-C31-1 (as-name takes the pattern's value)
 BATCH = {"quick": 56, "thorough": 110}     # functions per compiled module
 MAX_TYPED = 2                              # typed variants per statement
 QUARANTINE = {"quick": 3, "thorough": 8}   # functions predicted to break the compiler: one module each, this many per feature
-COMPILE_HAZARDS = ("map-value-wildcard-as",)       # the statement goes into a module of its own
+COMPILE_HAZARDS = ("map-value-wildcard-as", "irrefutable-alternatives-with-structural-alternative")       # the statement goes into a module of its own
 TYPING_HAZARDS = {"I": ("sequence-pattern-on-subject",)}   # the typed variant goes into a module of its own
 ACTIONS = ("PickSubject", "TryCase", "FallOff", "GuardT", "GuardF", "GuardR", "Body")
 KINDS = ("lit", "val", "cap", "wild", "seq", "map", "cls", "or", "as")
